@@ -4,7 +4,7 @@
    Statements only; every proof is `exact <lemma of Proofs/DhcpServer.v>`. *)
 From Erbium Require Import Lib.Base Model.DhcpCodec Model.DhcpOptVal Model.DhcpPolicy Model.DhcpAddrs
   Model.DhcpPool Model.DhcpHandler Model.Frame Model.DhcpServer.
-From Erbium Require Import Proofs.DhcpPool Proofs.DhcpPoolCrash Proofs.DhcpServer Proofs.DhcpServerWf.
+From Erbium Require Import Proofs.DhcpPool Proofs.DhcpPoolCrash Proofs.DhcpServer Proofs.DhcpServerWf Proofs.DhcpServerOpts.
 
 (* S01 -- totality.  Full statement wanted:
      forall cfg st t1 t2 e b ans, is_panic (server_step cfg st t1 t2 e b ans) = false.
@@ -103,30 +103,28 @@ Print Assumptions S03_reply.
    Proved under: the datagram consists of octets; the interface has a 6-octet address and the
    port is a u16; every address of the configuration is a u32; and two hypotheses that are
    facts about the CONFIGURATION not yet derived from its well-formedness:
-   (a) the options the policy walk selects are well-formed (codes 1..254, octet values,
-       distinct codes) -- distinctness follows from Proofs/DhcpPolicy.apply_chain_nodup, the
-       value part needs an invariant over the loader's option values;
+   (a) the options the policy walk selects have codes 1..254 and octet values (that their
+       codes are distinct is proved: Proofs/DhcpServerOpts.walk_opts_distinct); deriving (a)
+       needs an invariant over the loader's option values along the selected chain;
    (b) the encoded reply fits a UDP datagram (see S01). *)
 Theorem S03_wire_partial : forall cfg st t1 t2 e b ans st' f,
   server_step cfg st t1 t2 e b ans = Ok (st', Some f) ->
   bytes_ok b = true -> wf_env e ->
   (forall x, In x (sc_universe cfg) -> x < 4294967296) ->
   (forall m, decode b = Ok m ->
-     let os := to_options (rs_opts (snd (walk_of cfg (request_of e m)))) in
-     forallb wf_option os = true /\ keys_distinct os = true) ->
+     forallb wf_option (to_options (rs_opts (snd (walk_of cfg (request_of e m))))) = true) ->
   exists m r mac,
     decode b = Ok m /\ reply_of cfg st t2 e b ans = Some r /\ mac = takeN 6 (d_chaddr m) /\
     f = udp4_frame (frame_args e m r mac) /\
     wf_dhcp r = true /\ decode (encode r) = Ok r /\
     (lenN (encode r) <= 65507 -> valid_frame (frame_args e m r mac) f = true).
-Proof. exact wire_facts. Qed.
+Proof. exact wire_facts2. Qed.
 Check S03_wire_partial : forall cfg st t1 t2 e b ans st' f,
   server_step cfg st t1 t2 e b ans = Ok (st', Some f) ->
   bytes_ok b = true -> wf_env e ->
   (forall x, In x (sc_universe cfg) -> x < 4294967296) ->
   (forall m, decode b = Ok m ->
-     let os := to_options (rs_opts (snd (walk_of cfg (request_of e m)))) in
-     forallb wf_option os = true /\ keys_distinct os = true) ->
+     forallb wf_option (to_options (rs_opts (snd (walk_of cfg (request_of e m))))) = true) ->
   exists m r mac,
     decode b = Ok m /\ reply_of cfg st t2 e b ans = Some r /\ mac = takeN 6 (d_chaddr m) /\
     f = udp4_frame (frame_args e m r mac) /\
